@@ -56,6 +56,7 @@ type Engine struct {
 	curPureDynamic  bool
 	debugPanics     bool
 	keys            []string
+	sccOf           map[string]int
 	funcByTerm      map[string]*ssa.Function
 	specialize      map[string]string // parameter name -> function key, for the function currently verified
 	defaults        map[string]*Contract
@@ -351,6 +352,76 @@ func (eng *Engine) defaultContract(fn *ssa.Function) *Contract {
 	}
 	eng.defaults[key] = ct
 	return ct
+}
+
+// specSCC: strongly connected components of the call graph among specification functions (recursive groups use the
+// limited copies of each other, so that mutual recursion does not create a matching loop)
+func (eng *Engine) specSCC(name string) int {
+	if eng.sccOf == nil {
+		eng.sccOf = map[string]int{}
+		// call graph by syntactic scan
+		calls := map[string][]string{}
+		byShort := map[string][]string{}
+		for full := range eng.specs {
+			short := full[strings.LastIndex(full, ".")+1:]
+			byShort[short] = append(byShort[short], full)
+		}
+		for full, sf := range eng.specs {
+			pkgPrefix := full[:strings.LastIndex(full, ".")+1]
+			ast.Inspect(sf.decl.Body, func(n ast.Node) bool {
+				if ce, ok := n.(*ast.CallExpr); ok {
+					switch f := ce.Fun.(type) {
+					case *ast.Ident:
+						if _, ok := eng.specs[pkgPrefix+f.Name]; ok {
+							calls[full] = append(calls[full], pkgPrefix+f.Name)
+						}
+					case *ast.SelectorExpr:
+						for _, cand := range byShort[f.Sel.Name] {
+							calls[full] = append(calls[full], cand)
+						}
+					}
+				}
+				return true
+			})
+		}
+		// reachability-based SCC (small graphs)
+		reach := func(from string) map[string]bool {
+			seen := map[string]bool{}
+			var st []string
+			st = append(st, calls[from]...)
+			for len(st) > 0 {
+				x := st[len(st)-1]
+				st = st[:len(st)-1]
+				if seen[x] {
+					continue
+				}
+				seen[x] = true
+				st = append(st, calls[x]...)
+			}
+			return seen
+		}
+		rs := map[string]map[string]bool{}
+		var names []string
+		for full := range eng.specs {
+			rs[full] = reach(full)
+			names = append(names, full)
+		}
+		sort.Strings(names)
+		id := 0
+		for _, a := range names {
+			if _, done := eng.sccOf[a]; done {
+				continue
+			}
+			id++
+			eng.sccOf[a] = id
+			for _, b := range names {
+				if a != b && rs[a][b] && rs[b][a] {
+					eng.sccOf[b] = id
+				}
+			}
+		}
+	}
+	return eng.sccOf[name]
 }
 
 func (eng *Engine) specFunc(full string) *specFn { return eng.specs[full] }
